@@ -32,15 +32,16 @@ def shuffles_of(tbl):
     return _TABLE_OBJECTS[key][1]
 
 
-def run_encode(acc, start, msg, mode, vtlen, tbl, budget=None, as_list=False):
+def run_encode(acc, start, msg, mode, vtlen, tbl, budget=None, as_list=False, log=False):
     """-> dict(enc_out, strand (digits), vt (digits), ticks, raw strand string)."""
     m = list(msg) if as_list else numpy.array(msg, dtype=int)
     kw = dict(is_faster=(mode == "fast"), vt_length=vtlen)
     sh = shuffles_of(tbl)
     if sh is not None:
         kw["shuffles"] = sh
-    r = impl.call(dsw.encode, m, acc, start, _budget=budget, _alarm=60, **kw)
-    out = {"enc_out": outcome(r), "ticks": r["ticks"], "strand": [], "vt": [], "s": "", "c": None, "msg": r.get("msg")}
+    r = impl.call(dsw.encode, m, acc, start, _budget=budget, _alarm=60, _log=log, **kw)
+    out = {"enc_out": outcome(r), "ticks": r["ticks"], "strand": [], "vt": [], "s": "", "c": None, "msg": r.get("msg"),
+           "tv": [int(sc["vertex"]) for site, sc in (r.get("log") or []) if site in ("enc_n", "enc_f")]}
     if r["out"] == "ok":
         v = r["value"]
         if vtlen > 0:
@@ -203,8 +204,8 @@ def record_enc_cases(rng, n, maxbits, orders=(2, 3, 4, 5), budget_factor=1):
                 tbl = tables[t - 1]
             else:
                 t, tbl = 0, None
-            e = run_encode(acc, start, msg, mode, vtlen, tbl, budget=budget_factor * (L * nreach + 4), as_list=(j == 1))
-            c = {"kind": "enc", "g": g, "tbl": t, "start": start, "msg": msg, "mode": mode, "vtlen": vtlen,
+            e = run_encode(acc, start, msg, mode, vtlen, tbl, budget=budget_factor * (L * nreach + 4), as_list=(j == 1), log=True)
+            c = {"kind": "enc", "g": g, "tbl": t, "start": start, "msg": msg, "mode": mode, "vtlen": vtlen, "tv": e["tv"],
                  "enc_out": e["enc_out"], "strand": e["strand"], "vt": e["vt"], "ticks": e["ticks"], "dec_out": "none", "decoded": []}
             if e["enc_out"] == "ok":
                 d = run_decode(acc, start, e["s"], L, mode, e["c"], tbl)
@@ -228,7 +229,7 @@ def record_enc_cases(rng, n, maxbits, orders=(2, 3, 4, 5), budget_factor=1):
                     g2 = len(graphs)
                     for msg in (warm, make_msg(rng, 24), make_msg(rng, 64)):
                         e = run_encode(acc, former, msg, "normal", 0, htbl, budget=budget_factor * (len(msg) * nreach + 4))
-                        c = {"kind": "enc", "g": g2, "tbl": ht, "start": former, "msg": msg, "mode": "normal", "vtlen": 0, "enc_out": e["enc_out"],
+                        c = {"kind": "enc", "g": g2, "tbl": ht, "start": former, "tv": [], "msg": msg, "mode": "normal", "vtlen": 0, "enc_out": e["enc_out"],
                              "strand": e["strand"], "vt": e["vt"], "ticks": e["ticks"], "dec_out": "none", "decoded": []}
                         if e["enc_out"] == "ok":
                             d = run_decode(acc, former, e["s"], len(msg), "normal", e["c"], htbl)
